@@ -1,5 +1,6 @@
 import Skc.Lemmas.CapaSpec
 import Skc.Lemmas.PenH
+import Skc.Lemmas.CapaGlue
 
 /-! # C03 — CAPA / MVCAPA anomalies maximise the total penalised saving
 
@@ -114,7 +115,147 @@ theorem penalise_equal_H (x y z : List α) (alpha b : α) (h : SubAdd x y z) (hb
   have := subAdd_pos_sum b hb x y z h
   grind
 
+/-! ### The composition the code executes, against the specification -/
+
+/-- **C03, full statement at model level.**  Let the collective / point savings of every interval be
+    vectors of `p ≥ 1` non-negative column savings, sub-additive under splitting column by column,
+    and let both `(alpha, betas)` pairs satisfy `PenOK` (non-negative terms; betas not in
+    `(0, 1e-8)`).  Let `PSs`, `PPs` be the *specification's* penalised savings: for every interval the
+    best, over non-empty sets of components, of the summed savings minus `alpha` (once) minus the
+    betas of that many components (`IsBestSel`).  Then the model of `run_base_capa` driven by the
+    code's `penalise_savings` (three branches) returns an admissible anomaly set whose total
+    *specification* saving equals the reported final score, and no admissible set has a larger
+    total specification saving.  (The equal-betas branch over-estimates candidates whose true value
+    is below `-alpha`; such candidates are never selected because "no anomaly" wins ties.) -/
+theorem capa_optimal_wrt_specification (eps : α) (csav : Nat → Nat → List α) (psav : Nat → List α)
+    (ca pa : α) (cb pb : List α) (p m M delay n : Nat)
+    (hm : 2 ≤ m) (hmM : m ≤ M) (hd : m ≤ delay + 1) (hp : 0 < p)
+    (hclen : ∀ s e, (csav s e).length = p) (hplen : ∀ t, (psav t).length = p)
+    (hcnn : ∀ s e, ∀ v ∈ csav s e, 0 ≤ v) (hpnn : ∀ t, ∀ v ∈ psav t, 0 ≤ v)
+    (hsub : ∀ s e0 T, s + m ≤ e0 → e0 + m ≤ T → T ≤ s + M → T ≤ n →
+      SubAdd (csav s T) (csav s e0) (csav e0 T))
+    (okc : PenOK eps p ca cb) (okp : PenOK eps p pa pb)
+    (PSs : Nat → Nat → α) (PPs : Nat → α)
+    (hPSs : ∀ s e, IsBestSel (csav s e) ca cb (PSs s e))
+    (hPPs : ∀ t, IsBestSel (psav t) pa pb (PPs t)) :
+    let PS := fun s e => penalise eps (csav s e) ca cb
+    let PP := fun t => penalise eps (psav t) pa pb
+    let r := runCapa PS PP (ca + sumL cb) m M delay n
+    ValidAnoms m M 0 r.2 n ∧ anomVal PSs PPs r.2 = r.1 n ∧
+      ∀ l, ValidAnoms m M 0 l n → anomVal PSs PPs l ≤ r.1 n := by
+  intro PS PP r
+  have hne_c : ∀ s e, csav s e ≠ [] := fun s e h => by
+    have := hclen s e; rw [h] at this; simp at this; omega
+  have hne_p : ∀ t, psav t ≠ [] := fun t h => by
+    have := hplen t; rw [h] at this; simp at this; omega
+  have okc' : ∀ s e, PenOK eps (csav s e).length ca cb := fun s e => by rw [hclen]; exact okc
+  have okp' : ∀ t, PenOK eps (psav t).length pa pb := fun t => by rw [hplen]; exact okp
+  -- the pruning inequality for the code's penalised saving
+  have H : PruneIneq PS (ca + sumL cb) m M n := by
+    intro s e0 T h1 h2 h3 h4
+    exact penalise_H eps _ _ _ ca cb (hne_c s T) (hsub s e0 T h1 h2 h3 h4) (okc' s T)
+  obtain ⟨hvalid, hval, hub⟩ := capa_optimal PS PP (ca + sumL cb) m M delay n hm hmM hd H
+  have hposr := capa_reported_positive PS PP (ca + sumL cb) m M delay n hm hmM hd H
+  -- the specification never exceeds the code's value
+  have hle1 : ∀ s e, PSs s e ≤ PS s e := by
+    intro s e
+    obtain ⟨⟨J, hJ1, hJ2, hJ3⟩, _⟩ := hPSs s e
+    rw [← hJ3]
+    exact penalise_ge eps _ ca cb (hne_c s e) (hcnn s e) (okc' s e) J hJ1 hJ2
+  have hle2 : ∀ t, PPs t ≤ PP t := by
+    intro t
+    obtain ⟨⟨J, hJ1, hJ2, hJ3⟩, _⟩ := hPPs t
+    rw [← hJ3]
+    exact penalise_ge eps _ pa pb (hne_p t) (hpnn t) (okp' t) J hJ1 hJ2
+  refine ⟨hvalid, ?_, ?_⟩
+  · -- on the reported anomalies (strictly positive) code and specification coincide
+    rw [← hval]
+    apply anomVal_congr
+    intro a ha
+    have hpos := hposr a ha
+    simp only [anomVal1] at hpos ⊢
+    split
+    · rename_i hpt
+      simp only [hpt, if_true] at hpos
+      have hb := penalise_best_of_pos eps _ pa pb (hne_p a.1) (hpnn a.1) (okp' a.1) hpos
+      exact isBestSel_unique _ _ _ _ _ (hPPs a.1) hb
+    · rename_i hpt
+      simp only [hpt, if_false] at hpos
+      have hb := penalise_best_of_pos eps _ ca cb (hne_c a.1 a.2) (hcnn a.1 a.2) (okc' a.1 a.2) hpos
+      exact isBestSel_unique _ _ _ _ _ (hPSs a.1 a.2) hb
+  · intro l hl
+    exact le_trans (anomVal_mono PSs PS PPs PP hle1 hle2 l) (hub l hl)
+
+/-- **C03, scores against the specification**: under the same hypotheses every reported cumulative
+    score is the maximum total *specification* saving over the admissible anomaly sets of that
+    prefix (attained and an upper bound), hence non-negative and non-decreasing. -/
+theorem capa_prefix_wrt_specification (eps : α) (csav : Nat → Nat → List α) (psav : Nat → List α)
+    (ca pa : α) (cb pb : List α) (p m M delay n : Nat)
+    (hm : 2 ≤ m) (hmM : m ≤ M) (hd : m ≤ delay + 1) (hp : 0 < p)
+    (hclen : ∀ s e, (csav s e).length = p) (hplen : ∀ t, (psav t).length = p)
+    (hcnn : ∀ s e, ∀ v ∈ csav s e, 0 ≤ v) (hpnn : ∀ t, ∀ v ∈ psav t, 0 ≤ v)
+    (hsub : ∀ s e0 T, s + m ≤ e0 → e0 + m ≤ T → T ≤ s + M → T ≤ n →
+      SubAdd (csav s T) (csav s e0) (csav e0 T))
+    (okc : PenOK eps p ca cb) (okp : PenOK eps p pa pb)
+    (PSs : Nat → Nat → α) (PPs : Nat → α)
+    (hPSs : ∀ s e, IsBestSel (csav s e) ca cb (PSs s e))
+    (hPPs : ∀ t, IsBestSel (psav t) pa pb (PPs t)) (e : Nat) (he : e ≤ n) :
+    let PS := fun s e => penalise eps (csav s e) ca cb
+    let PP := fun t => penalise eps (psav t) pa pb
+    let opt := (runCapa PS PP (ca + sumL cb) m M delay n).1
+    (∃ l, ValidAnoms m M 0 l e ∧ anomVal PSs PPs l = opt e) ∧
+      (∀ l, ValidAnoms m M 0 l e → anomVal PSs PPs l ≤ opt e) ∧
+      0 ≤ opt e ∧ ∀ e', e' ≤ e → opt e' ≤ opt e := by
+  intro PS PP opt
+  have hne_c : ∀ s e, csav s e ≠ [] := fun s e h => by
+    have := hclen s e; rw [h] at this; simp at this; omega
+  have hne_p : ∀ t, psav t ≠ [] := fun t h => by
+    have := hplen t; rw [h] at this; simp at this; omega
+  have okc' : ∀ s e, PenOK eps (csav s e).length ca cb := fun s e => by rw [hclen]; exact okc
+  have okp' : ∀ t, PenOK eps (psav t).length pa pb := fun t => by rw [hplen]; exact okp
+  have H : PruneIneq PS (ca + sumL cb) m M n := by
+    intro s e0 T h1 h2 h3 h4
+    exact penalise_H eps _ _ _ ca cb (hne_c s T) (hsub s e0 T h1 h2 h3 h4) (okc' s T)
+  have inv := cinv_all PS PP (ca + sumL cb) m M delay n (by omega) hmM hd H n (le_refl _)
+  obtain ⟨l, _, hl2, hl3, hl4⟩ :=
+    getAnoms_spec PS PP (ca + sumL cb) m M delay n _ hm inv e he (e + 1) [] (by omega)
+  obtain ⟨_, hub, h0, hmono⟩ := capa_prefix PS PP (ca + sumL cb) m M delay n hm hmM hd H e he
+  have hle1 : ∀ s e, PSs s e ≤ PS s e := by
+    intro s e
+    obtain ⟨⟨J, hJ1, hJ2, hJ3⟩, _⟩ := hPSs s e
+    rw [← hJ3]
+    exact penalise_ge eps _ ca cb (hne_c s e) (hcnn s e) (okc' s e) J hJ1 hJ2
+  have hle2 : ∀ t, PPs t ≤ PP t := by
+    intro t
+    obtain ⟨⟨J, hJ1, hJ2, hJ3⟩, _⟩ := hPPs t
+    rw [← hJ3]
+    exact penalise_ge eps _ pa pb (hne_p t) (hpnn t) (okp' t) J hJ1 hJ2
+  refine ⟨⟨l, hl2, ?_⟩, ?_, h0, hmono⟩
+  · show anomVal PSs PPs l = (runCapa PS PP (ca + sumL cb) m M delay n).1 e
+    have : (runCapa PS PP (ca + sumL cb) m M delay n).1 e =
+        (capaIter PS PP (ca + sumL cb) m M delay n).opt e := rfl
+    rw [this, ← hl3]
+    apply anomVal_congr
+    intro a ha
+    have hpos := hl4 a ha
+    simp only [anomVal1] at hpos ⊢
+    split
+    · rename_i hpt
+      simp only [hpt, if_true] at hpos
+      exact isBestSel_unique _ _ _ _ _ (hPPs a.1)
+        (penalise_best_of_pos eps _ pa pb (hne_p a.1) (hpnn a.1) (okp' a.1) hpos)
+    · rename_i hpt
+      simp only [hpt, if_false] at hpos
+      exact isBestSel_unique _ _ _ _ _ (hPSs a.1 a.2)
+        (penalise_best_of_pos eps _ ca cb (hne_c a.1 a.2) (hcnn a.1 a.2) (okc' a.1 a.2) hpos)
+  · intro l' hl'
+    exact le_trans (anomVal_mono PSs PS PPs PP hle1 hle2 l') (hub l' hl')
+
 /-! ### Non-vacuity and the negative result for the pinned code -/
+
+/-- the penalty hypotheses are satisfiable: `alpha = 3`, equal betas `[2, 2]` for `p = 2` columns -/
+example : PenOK (1 : Int) 2 3 [2, 2] :=
+  ⟨by decide, by decide, by intro h; exact absurd (h 2 (by simp)) (by decide), by intro _; rfl⟩
 
 /-- a concrete sub-additive penalised saving: `PS s e = (e - s) - 3`, `K = 3` -/
 example : PruneIneq (fun s e => ((e : Int) - s) - 3) 3 2 5 12 := by
